@@ -3,7 +3,8 @@
 // After every step the real nodes are compared with the model through the public observer API.
 //   param0 = mode bits: 1 = C12 observers, 2 = C13 heap ledger + copy independence, 4 = C18 equality laws, 8 = C06 dump/parse round trip
 //   param1 = number of symbolic steps, param2 = op-set selector (0 object ops, 1 array ops, 2 node/copy/move ops, 3 all)
-//   param3 = number of concrete members/elements added before the script (growth points), param4 = 1: start from a parsed document
+//   param3 = number of concrete members/elements added before the script (growth points), param4 = start state: 0 empty roots,
+//            1 parsed 3-member document, 2 parsed one-member object (capacity 1), 3 three members with a lookup map already built
 #include "sonic/sonic.h"
 #include "verif.h"
 #include <stdlib.h>
@@ -179,6 +180,12 @@ extern "C" int h_dom(void) {
       g_pool[ar].kid[0] = e2; g_pool[ar].kid[1] = e3; g_pool[ar].n = 2;
       int ob = mnew(MObj); int e4 = mnew(MInt); g_pool[e4].num = 4; g_pool[ob].kid[0] = e4; g_pool[ob].key[0] = 0; g_pool[ob].n = 1;
       m.key[0] = 0; m.kid[0] = v1; m.key[1] = 1; m.kid[1] = ar; m.key[2] = 2; m.kid[2] = ob; m.n = 3;
+    } else if (parsed == 2) {
+      // a parsed one-member object has capacity 1
+      static const char kOne[] = "{\"a\":1}";
+      doc.Parse(kOne, sizeof(kOne) - 1);
+      X = std::move(*static_cast<Node*>(&doc));
+      mx = mnew(MObj); int v1 = mnew(MInt); g_pool[v1].num = 1; g_pool[mx].key[0] = 0; g_pool[mx].kid[0] = v1; g_pool[mx].n = 1;
     } else { X.SetObject(); mx = mnew(MObj); }
     Y.SetArray(); my = mnew(MArr);
     for (size_t i = 0; i < pre; i++) {
@@ -187,18 +194,23 @@ extern "C" int h_dom(void) {
       Node w; w.SetInt64((int64_t)i); Y.PushBack(std::move(w), a);
       int d = mnew(MInt); g_pool[d].num = i; MVal& q = g_pool[my]; q.kid[q.n] = d; q.n++;
     }
+    if (parsed == 3) {
+      // three distinct members and a lookup map already built
+      for (int k = 0; k < 3; k++) { Node v; v.SetInt64(10 + k); X.AddMember(key_of(k == 2 ? 3 : k), std::move(v), a, true); int c = mnew(MInt); g_pool[c].num = 10 + k; MVal& m = g_pool[mx]; m.key[m.n] = (k == 2 ? 3 : k); m.kid[m.n] = c; m.n++; }
+      X.CreateMap(a);
+    }
     for (size_t s = 0; s < steps; s++) {
       size_t t = (opset == 0) ? 0 : (opset == 1) ? 1 : pick(0, 1, "target");
       Node& T = t ? Y : X; Node& O = t ? X : Y;
       int& mt = t ? my : mx; int& mo = t ? mx : my;
       static const uint8_t kObjOps[] = {5, 6, 7, 8, 9, 10, 15, 16};
       static const uint8_t kArrOps[] = {11, 12, 13, 14, 15, 16};
-      static const uint8_t kNodeOps[] = {0, 1, 2, 3, 4, 17, 18, 19, 20, 21, 5, 11, 9};
+      static const uint8_t kNodeOps[] = {0, 1, 2, 3, 4, 17, 18, 19, 20, 21, 5, 11, 9, 22};
       size_t op;
       if (opset == 0) op = kObjOps[pick(0, sizeof(kObjOps) - 1, "op")];
       else if (opset == 1) op = kArrOps[pick(0, sizeof(kArrOps) - 1, "op")];
       else if (opset == 2) op = kNodeOps[pick(0, sizeof(kNodeOps) - 1, "op")];
-      else op = pick(0, 21, "op");
+      else op = pick(0, 22, "op");
       MVal* m = &g_pool[mt];
       bool isobj = m->kind == MObj, isarr = m->kind == MArr;
       switch (op) {
@@ -262,6 +274,8 @@ extern "C" int h_dom(void) {
         case 18: O = std::move(T); mo = mt; mt = mnew(MNull); break;
         case 19: T.Swap(O); { int tmp = mt; mt = mo; mo = tmp; } break;
         case 20: if (isobj && m->n < 38) { int k = (int)pick(0, 3, "key"); T.AddMember(key_of(k), std::move(O), a, true); m->key[m->n] = k; m->kid[m->n] = mo; m->n++; mo = mnew(MNull); } break;
+        case 22: { static const uint64_t kD[] = {0x0000000000000000ull, 0x8000000000000000ull, 0x3ff0000000000000ull, 0x4004000000000000ull};
+                   uint64_t bits = kD[pick(0, 3, "dsel")]; double d; memcpy(&d, &bits, 8); T.SetDouble(d); mt = mnew(MDbl); g_pool[mt].num = bits; break; }
         case 21: if (isarr && m->n < 38) { T.PushBack(std::move(O), a); m->kid[m->n] = mo; m->n++; mo = mnew(MNull); } break;
       }
       if (mode & 1) { compare(X, mx, true); compare(Y, my, true); }
